@@ -239,13 +239,17 @@ fn make_well_formed(g: &mut Gram, terms: &[GE]) {
     }
     fn starts_ok(e: &GE) -> bool {
         match e {
-            GE::Seq(a, _) => consuming(a),
+            GE::Seq(a, _) => consuming(a) || starts_ok(a),
             _ => false,
         }
     }
     fn prefix(e: &mut GE, t: GE) {
         let inner = std::mem::replace(e, GE::Str(String::new()));
-        *e = GE::Seq(Box::new(t), Box::new(inner));
+        // `t ~ a ~ b` reads back left-nested, `t ~ (a ~ b)` right-nested: use both shapes
+        *e = match inner {
+            GE::Seq(a, b) if matches!(t, GE::Str(ref s) if s.len() % 2 == 1) => GE::Seq(Box::new(GE::Seq(Box::new(t), a)), b),
+            other => GE::Seq(Box::new(t), Box::new(other)),
+        };
     }
     fn walk(e: &mut GE, k: &mut usize, next: &mut dyn FnMut(&mut usize) -> GE, final_alt: bool) {
         match e {
